@@ -1545,6 +1545,217 @@ class Analyzer:
 
 
 # ------------------------------------------------------------------------------------ main
+# ------------------------------------------------------------------------------------ the spawn path (tool environment)
+MEMO_IDS = {"static", "OnceLock", "OnceCell", "Lazy", "LazyLock", "LazyCell", "lazy_static", "thread_local", "once_cell",
+            "Once", "get_or_init", "get_or_try_init", "get_or_insert_with", "get_or_insert", "call_once", "cached", "memoize"}
+SHRINK_IDS = {"clear", "remove", "retain", "take", "drain", "replace", "pop_first", "pop_last", "split_off", "swap",
+              "truncate", "mem"}
+
+
+def load_rs(repo, crate):
+    out = []
+    root = os.path.join(repo, "crates", crate, "src")
+    for dp, dn, fn in os.walk(root):
+        dn.sort()
+        for f in sorted(fn):
+            if not f.endswith(".rs"):
+                continue
+            rel = os.path.relpath(os.path.join(dp, f), os.path.join(repo, "crates"))
+            if f.endswith("_tests.rs") or f == "tests.rs" or "/tests/" in rel or rel.endswith("verif.rs"):
+                continue
+            try:
+                out.append(FileInfo(rel, lex(open(os.path.join(dp, f), encoding="utf-8", errors="replace").read())))
+            except OSError:
+                pass
+    return out
+
+
+def spawn_path_facts(repo):
+    """What the model of the tool environment over time (Model/SecretFlow.v: registry, reg_load, spawn_env) assumes of
+    rip-tools/src/secret_env.rs, ripd/src/config.rs, ripd/src/runner.rs and the subprocess spawn sites.  Returns
+    (fixed_names, fresh, grows_only, load_registers, loaders_found, n_sites, n_stripping, notes)."""
+    notes = []
+    tools = load_rs(repo, "rip-tools")
+    ripd = load_rs(repo, "ripd")
+    fns = collect_fns(tools + ripd)
+
+    def fn_named(name, rel_end=None, impl=None):
+        return [f for f in fns if f.name == name and (rel_end is None or f.fi.rel.endswith(rel_end)) and (impl is None or f.impl_type == impl)]
+
+    def body_ids(f):
+        o, c = f.body
+        return [(k, f.fi.toks[k]) for k in range(o + 1, c) if not f.fi.test[k]]
+
+    def calls(f, name):
+        """token indices in f's body where `name (` occurs"""
+        return [k for k, t in body_ids(f) if t.k == "id" and t.s == name and f.fi.is_p(k + 1, "(")]
+
+    se = [fi for fi in tools if fi.rel.endswith("secret_env.rs")]
+    fixed, fresh, grows = [], False, False
+    if not se:
+        notes.append("rip-tools/src/secret_env.rs not found")
+    else:
+        fi = se[0]
+        # (1) const PROVIDER_KEY_ENV_VARS: [&str; N] = [ "..", .. ];
+        for i, t in enumerate(fi.toks):
+            if t.k == "id" and t.s == "PROVIDER_KEY_ENV_VARS" and fi.is_id(i - 1, "const"):
+                j = i
+                while j < len(fi.toks) and not fi.is_p(j, "="):
+                    j += 1
+                if fi.is_p(j + 1, "[") and (j + 1) in fi.mate:
+                    fixed = [x.s for x in fi.toks[j + 2:fi.mate[j + 1]] if x.k == "str"]
+                    if any(x.k not in ("str", "p") for x in fi.toks[j + 2:fi.mate[j + 1]]):
+                        notes.append("PROVIDER_KEY_ENV_VARS is not a list of string literals")
+                        fixed = []
+        if not fixed:
+            notes.append("const PROVIDER_KEY_ENV_VARS = [..string literals..] not found")
+        # (2) secret_env_names(): rebuilt from the registry on EVERY call
+        sn = fn_named("secret_env_names", "secret_env.rs")
+        if len(sn) != 1:
+            notes.append("fn secret_env_names not found (or not unique) in secret_env.rs")
+        else:
+            ids = [t.s for _, t in body_ids(sn[0]) if t.k == "id"]
+            memo = sorted(set(ids) & MEMO_IDS)
+            if memo:
+                notes.append("secret_env_names() holds state across calls (memoisation): " + ", ".join(memo))
+            reads_registry = bool(calls(sn[0], "registered"))
+            if not reads_registry:
+                notes.append("secret_env_names() does not read the registry (`registered()`) in its body")
+            if "PROVIDER_KEY_ENV_VARS" not in ids:
+                notes.append("secret_env_names() does not start from PROVIDER_KEY_ENV_VARS")
+            # the only `static` of the file is the registry itself (inside fn registered)
+            statics = [i for i, t in enumerate(fi.toks) if t.k == "id" and t.s == "static" and not fi.test[i]]
+            reg = fn_named("registered", "secret_env.rs")
+            inside = [i for i in statics if reg and reg[0].body[0] < i < reg[0].body[1]]
+            if len(statics) != len(inside) or len(statics) != 1:
+                notes.append(f"secret_env.rs has {len(statics)} statics, {len(inside)} of them the registry in fn registered (expected exactly the one)")
+            # no other fn hands out a cached copy: every pub fn returning names is secret_env_names
+            fresh = not memo and reads_registry and "PROVIDER_KEY_ENV_VARS" in ids and len(statics) == 1 and len(inside) == 1
+        # (3) the registry only grows
+        rg = fn_named("register_secret_env_names", "secret_env.rs")
+        if len(rg) != 1:
+            notes.append("fn register_secret_env_names not found in secret_env.rs")
+        else:
+            ids = [t.s for _, t in body_ids(rg[0]) if t.k == "id"]
+            shrink = sorted({t.s for i, t in enumerate(fi.toks) if t.k == "id" and t.s in SHRINK_IDS and not fi.test[i]
+                             and (fi.is_p(i - 1, ".") or fi.is_p(i - 1, "::"))})
+            if shrink:
+                notes.append("secret_env.rs removes / replaces registry entries: " + ", ".join(shrink))
+            adds = "extend" in ids or "insert" in ids
+            if not adds:
+                notes.append("register_secret_env_names does not extend / insert into the registry")
+            writes = bool(calls(rg[0], "registered"))
+            grows = adds and writes and not shrink
+
+    # (4) load_effective_config registers the names of what it loaded, unconditionally, on every call
+    load_registers = False
+    le = fn_named("load_effective_config", "ripd/src/config.rs")
+    if len(le) != 1:
+        notes.append("fn load_effective_config not found in ripd/src/config.rs")
+    else:
+        f = le[0]
+        cs = calls(f, "register_secret_env_names")
+        if not cs:
+            notes.append("load_effective_config does not call register_secret_env_names")
+        else:
+            k = cs[0]
+            # innermost enclosing brace of the call is the fn body (not inside if / match / loop / closure block)
+            par = f.fi.parent[k]
+            while par != -1 and not f.fi.is_p(par, "{"):
+                par = f.fi.parent[par]
+            top = par == f.body[0]
+            early = [t.s for kk, t in body_ids(f) if kk < k and ((t.k == "id" and t.s == "return") or (t.k == "p" and t.s == "?"))]
+            arg_close = f.fi.mate.get(k + 1, k + 1)
+            arg_ids = {t.s for t in f.fi.toks[k + 2:arg_close] if t.k == "id"}
+            names_ok = "Env" in arg_ids and "provider" in arg_ids and "api_key" in arg_ids
+            guard = sorted({t.s for t in f.fi.toks[f.body[0]:f.body[1]] if t.k == "id"} & MEMO_IDS)
+            if not top:
+                notes.append("the register_secret_env_names call in load_effective_config is conditional (nested block)")
+            if early:
+                notes.append("load_effective_config can leave before it registers (return / ? before the call)")
+            if not names_ok:
+                notes.append("register_secret_env_names is not given the ApiKeySource::Env names of config.provider")
+            if guard:
+                notes.append("load_effective_config holds state across calls: " + ", ".join(guard))
+            load_registers = top and not early and names_ok and not guard
+    # (5) who loads: the per-request resolution, the engine start, the doctor
+    loaders = True
+    rs = fn_named("resolve_openresponses_config", "ripd/src/config.rs")
+    if len(rs) != 1 or not calls(rs[0], "load_effective_config"):
+        notes.append("resolve_openresponses_config does not call load_effective_config")
+        loaders = False
+    ne = fn_named("new", "ripd/src/runner.rs", "SessionEngine")
+    if len(ne) != 1 or not calls(ne[0], "load_effective_config"):
+        notes.append("SessionEngine::new does not call load_effective_config")
+        loaders = False
+    doc = [f for f in fns if f.fi.rel.endswith("ripd/src/server.rs") and "doctor" in f.name]
+    if not any(calls(f, "resolve_openresponses_config") or calls(f, "load_effective_config") for f in doc):
+        notes.append("the doctor handler in server.rs does not load the configuration")
+        loaders = False
+
+    # (6) every subprocess spawn site of rip-tools and ripd removes secret_env_names() from the child environment,
+    #     before the call's own `env` is applied and before the spawn
+    n_sites, n_strip = 0, 0
+    for fi in tools + ripd:
+        toks = fi.toks
+        has_proc = any(toks[i].k == "id" and toks[i].s == "process" and fi.is_p(i + 1, "::") and fi.is_id(i + 2, "Command") for i in range(len(toks)))
+        for i, t in enumerate(toks):
+            if fi.test[i] or t.k != "id" or not fi.is_p(i + 1, "::") or not fi.is_id(i + 2, "new") or not fi.is_p(i + 3, "("):
+                continue
+            if not ((t.s == "Command" and has_proc) or t.s == "CommandBuilder"):
+                continue
+            n_sites += 1
+            encl = [f for f in fns if f.fi is fi and f.body[0] < i < f.body[1]]
+            if not encl:
+                notes.append(f"{fi.rel}:{t.line} spawn site outside any function")
+                continue
+            f = min(encl, key=lambda f: f.body[1] - f.body[0])
+            ok, why = False, "no `for name in ..secret_env_names() { cmd.env_remove(name) }` after it"
+            for k in calls(f, "secret_env_names"):
+                if k < i:
+                    continue
+                # `for <pat> in <path> secret_env_names ( ) {`
+                j = k
+                while j > i and (fi.is_p(j - 1, "::") or fi.is_id(j - 1)) and not fi.is_id(j - 1, "in"):
+                    j -= 1
+                if not fi.is_id(j - 1, "in"):
+                    continue
+                blk = fi.mate.get(k + 1, k + 1) + 1
+                if not fi.is_p(blk, "{") or blk not in fi.mate:
+                    continue
+                body = toks[blk:fi.mate[blk]]
+                if not any(x.k == "id" and x.s == "env_remove" for x in body):
+                    why = "the loop over secret_env_names() does not env_remove"
+                    continue
+                # the loop is not nested in a conditional: its innermost enclosing brace is the fn body
+                par = fi.parent[k]
+                while par != -1 and not fi.is_p(par, "{"):
+                    par = fi.parent[par]
+                if par != f.body[0]:
+                    why = "the env_remove loop is conditional (nested block)"
+                    continue
+                after = list(range(fi.mate[blk], f.body[1]))
+                before = list(range(i, k))
+                spawn_before = [x for x in before if toks[x].k == "id" and toks[x].s in ("spawn", "spawn_command") and fi.is_p(x - 1, ".")]
+                spawn_after = [x for x in after if toks[x].k == "id" and toks[x].s in ("spawn", "spawn_command") and fi.is_p(x - 1, ".")]
+                own_env_before = [x for x in before if toks[x].k == "id" and toks[x].s in ("envs", "env") and fi.is_p(x - 1, ".") and fi.is_p(x + 1, "(")]
+                if spawn_before or not spawn_after:
+                    why = "the subprocess is spawned before the credential variables are removed"
+                    continue
+                if own_env_before:
+                    why = "the call's own env is applied before the removal (an explicit env must win)"
+                    continue
+                ok = True
+            if ok:
+                n_strip += 1
+            else:
+                notes.append(f"{fi.rel}:{t.line} spawn site in fn {f.name}: {why}")
+    if n_sites == 0:
+        notes.append("no subprocess spawn site found in rip-tools/src or ripd/src")
+    return fixed, fresh, grows, load_registers, loaders, n_sites, n_strip, notes
+
+
+
 def coq_lit(s):
     return '(lit "%s")' % s.replace('"', '""')
 
@@ -1629,6 +1840,11 @@ def main():
     if not any(r.startswith("ripd/src/server.rs") for r, _, _ in kinds_found.get("UPresence", [])):
         problems.append("anchor use not found: presence test in server.rs (doctor)")
 
+    sp_fixed, sp_fresh, sp_grows, sp_load, sp_loaders, sp_sites, sp_strip, sp_notes = spawn_path_facts(a.repo)
+
+    def cb(b):
+        return "true" if b else "false"
+
     uses = [(rel, line, KIND["UDecl"], "UDecl", text) for rel, line, text in decls]
     for key, (cls, line, text) in sites.items():
         uses.append((key[0], line, KIND[cls], cls, text))
@@ -1670,6 +1886,22 @@ def main():
     out.append("Lemma gen_secret_uses_ok : uses_wf gen_use_kinds gen_derives gen_found_all = true.")
     out.append("Proof. vm_compute. reflexivity. Qed.")
     out.append("")
+    out.append("(* the SPAWN PATH (rip-tools/src/secret_env.rs, ripd/src/config.rs load_effective_config, ripd/src/runner.rs,")
+    out.append("   the subprocess spawn sites of rip-tools and ripd): the list removed from a subprocess environment is")
+    out.append("   rebuilt from the registry at every spawn (no memoisation), the registry only grows, every load registers. *)")
+    for nt in sp_notes:
+        out.append("(* SPAWN-PATH PROBLEM: " + nt.replace("*)", "* )").replace("(*", "( *") + " *)")
+    out.append("Definition gen_spawn_facts : spawn_facts :=")
+    out.append("  mkSpawnFacts [%s] %s %s %s %s %d %d." % ("; ".join(coq_lit(x) for x in sp_fixed), cb(sp_fresh), cb(sp_grows), cb(sp_load), cb(sp_loaders), sp_sites, sp_strip))
+    out.append("Lemma gen_spawn_facts_ok : spawn_facts_wf gen_spawn_facts = true.")
+    out.append("Proof. vm_compute. reflexivity. Qed.")
+    out.append("Lemma gen_spawn_path_as_modelled :")
+    out.append("  sf_fixed_names gen_spawn_facts = [E_API_KEY; E_OPENAI; E_OPENROUTER]")
+    out.append("  /\\ sf_names_fresh gen_spawn_facts = true /\\ sf_registry_grows_only gen_spawn_facts = true")
+    out.append("  /\\ sf_load_registers gen_spawn_facts = true /\\ sf_loaders_found gen_spawn_facts = true")
+    out.append("  /\\ 1 <= sf_spawn_sites gen_spawn_facts /\\ sf_spawn_sites gen_spawn_facts = sf_spawn_sites_stripping gen_spawn_facts.")
+    out.append("Proof. exact (spawn_facts_wf_sound _ gen_spawn_facts_ok). Qed.")
+    out.append("")
     out.append("Lemma gen_uses_within_model_flows :")
     out.append("  gen_found_all = true")
     out.append("  /\\ Forall (fun k => exists u, use_kind_code u = k /\\ u <> UFormat /\\ u <> USerialize /\\ u <> UOther) gen_use_kinds")
@@ -1684,6 +1916,10 @@ def main():
         print("  DISALLOWED %s:%d %s %s" % (u[0], u[1], u[3], u[4]))
     for p in problems:
         print("  PROBLEM " + p)
+    print(f"secret_uses: spawn path: fixed={sp_fixed} fresh={sp_fresh} grows_only={sp_grows} load_registers={sp_load} "
+          f"loaders={sp_loaders} spawn sites {sp_strip}/{sp_sites} stripping")
+    for nt in sp_notes:
+        print("  SPAWN-PATH PROBLEM " + nt)
     if a.verbose:
         for u in uses:
             print("  %s:%d %s %s" % (u[0], u[1], u[3], u[4]))
